@@ -115,8 +115,12 @@ func Load(o LoadOpts) (*World, error) {
 		if len(names) == 0 {
 			// no helper left: forward-substitute new locals
 			var subs []string
-			ov, subs = w.normalizeLocals(o.Overlay)
-			kind := "new local "
+			ov, subs = w.devirtualizeSeams(o.Overlay)
+			kind := "function variable that only ever holds its initial function is called directly: "
+			if len(subs) == 0 {
+				ov, subs = w.normalizeLocals(o.Overlay)
+				kind = "new local "
+			}
 			if len(subs) == 0 {
 				ov, subs = w.splitAggregates(o.Overlay)
 				kind = "carrier struct split into one local per field: "
@@ -124,6 +128,14 @@ func Load(o LoadOpts) (*World, error) {
 			if len(subs) == 0 {
 				ov, subs = w.coalesceCopies(o.Overlay)
 				kind = "a fresh object built under a new name is built under the name it is copied to: "
+			}
+			if len(subs) == 0 {
+				ov, subs = w.expandReassignedAliases(o.Overlay)
+				kind = "a local that only ever holds one expression is replaced by it: "
+			}
+			if len(subs) == 0 {
+				ov, subs = w.restorePolarity(o.Overlay)
+				kind = "a test written with the opposite polarity and swapped branches is written as the rules know it in "
 			}
 			if len(subs) == 0 {
 				ov, subs = w.switchesToIfs(o.Overlay)
